@@ -48,7 +48,7 @@ def _worker(args):
     limit = int(os.environ.get("VERIF_SHAPE_TIMEOUT", "1500" if tier == "quick" else "5400"))
     try:
         signal.signal(signal.SIGALRM, _alarm)
-        signal.alarm(limit)
+        signal.setitimer(signal.ITIMER_REAL, limit)
     except ValueError:  # not in the main thread of the worker
         pass
     try:
@@ -60,7 +60,7 @@ def _worker(args):
         r = {"status": HARNESS, "detail": f"{type(e).__name__}: {e}", "trace": traceback.format_exc()[-1500:]}
     finally:
         try:
-            signal.alarm(0)
+            signal.setitimer(signal.ITIMER_REAL, 0)
         except ValueError:
             pass
     r.setdefault("shape", shape if isinstance(shape, (str, int)) else None)
